@@ -151,7 +151,7 @@ fail_write!(q_h10wr__stts_e1, 5, SttsBox, any_stts::<1>(), 32);
 fail_write!(t_h10wr__stts_e2, 6, SttsBox, any_stts::<2>(), 40);
 fail_write!(q_h10wr__mfhd, 4, MfhdBox, any_mfhd(), 24);
 fail_write!(t_h10wr__mvhd_v0, 27, MvhdBox, any_mvhd(0), 116);
-fail_write!(q_h10wr__tfhd_opt39, 4, TfhdBox, any_tfhd(0x39), 48);
+fail_write!(t_h10wr__tfhd_opt39, 4, TfhdBox, any_tfhd(0x39), 48);
 fail_write!(t_h10wr__stsc_e2, 6, StscBox, any_stsc::<2>(), 48);
 fail_write!(t_h10wr__trun_opt301_n2, 6, TrunBox, any_trun::<2>(0x301), 48);
 fail_write!(t_h10wr__avc1, 36, Avc1Box, any_avc1::<1, 4, 1, 2>(), 128);
@@ -261,7 +261,7 @@ macro_rules! short_read {
     };
 }
 short_read!(t_h10short__rd_stts_e1, 10, SttsBox, any_stts::<1>(), ref_stts, 32);
-short_read!(q_h10short__rd_mfhd, 10, MfhdBox, any_mfhd(), ref_mfhd, 24);
+short_read!(t_h10short__rd_mfhd, 10, MfhdBox, any_mfhd(), ref_mfhd, 24);
 short_read!(t_h10short__rd_tfdt_v1, 10, TfdtBox, any_tfdt(1), ref_tfdt, 28);
 short_read!(t_h10short__rd_tkhd_v0, 10, TkhdBox, any_tkhd(0), ref_tkhd, 100);
 
@@ -296,6 +296,67 @@ macro_rules! short_write {
     };
 }
 short_write!(t_h10short__wr_stts_e1, 10, SttsBox, any_stts::<1>(), ref_stts, 32);
-short_write!(q_h10short__wr_mfhd, 10, MfhdBox, any_mfhd(), ref_mfhd, 24);
+short_write!(t_h10short__wr_mfhd, 10, MfhdBox, any_mfhd(), ref_mfhd, 24);
 short_write!(t_h10short__wr_mvhd_v0, 27, MvhdBox, any_mvhd(0), ref_mvhd, 116);
 short_write!(t_h10short__wr_tkhd_v1, 10, TkhdBox, any_tkhd(1), ref_tkhd, 112);
+
+/// Short transfers on the smallest unit (quick tier): BoxHeader::read through a reader that hands
+/// out at most c bytes per call with one interrupted call, and BoxHeader::write through the
+/// corresponding writer: same header / same bytes as the plain stream.
+#[kani::proof]
+#[kani::unwind(18)]
+fn q_h10short__rd_box_header() {
+    let bytes: [u8; 16] = kani::any();
+    let c: usize = kani::any();
+    kani::assume(c >= 1 && c <= 4);
+    let mut plain = Cursor::new(&bytes[..]);
+    let mut r = chunked(&bytes[..], 0, c, kani::any());
+    match (BoxHeader::read(&mut plain), BoxHeader::read(&mut r)) {
+        (Ok(a), Ok(b)) => {
+            assert!(a.size == b.size && a.name == b.name, "C10 short and interrupted reads give exactly the same result");
+            kani::cover!(c == 1, "one byte per call");
+        }
+        (Err(a), Err(b)) => {
+            std::mem::forget(a);
+            std::mem::forget(b);
+        }
+        (a, b) => {
+            std::mem::forget(a);
+            std::mem::forget(b);
+            assert!(false, "C10 short and interrupted reads do not change the outcome");
+        }
+    }
+    kani::cover!(true, "compared");
+}
+#[kani::proof]
+#[kani::unwind(12)]
+fn q_h10short__wr_box_header() {
+    let size: u64 = kani::any();
+    let ty: u32 = kani::any();
+    let c: usize = kani::any();
+    kani::assume(c >= 1 && c <= 4);
+    let mut a = [0u8; 16];
+    let mut b = [0u8; 16];
+    let h = BoxHeader::new(BoxType::from(ty), size);
+    let ra = h.write(&mut Cursor::new(&mut a[..]));
+    let rb = h.write(&mut chunked_w(&mut b[..], c, kani::any()));
+    match (ra, rb) {
+        (Ok(x), Ok(y)) => {
+            assert!(x == y);
+            let i: usize = kani::any();
+            kani::assume(i < 16);
+            assert!(a[i] == b[i], "C10 short and interrupted writes produce exactly the same bytes");
+            kani::cover!(c == 1, "one byte per call");
+        }
+        (Err(x), Err(y)) => {
+            std::mem::forget(x);
+            std::mem::forget(y);
+        }
+        (x, y) => {
+            std::mem::forget(x);
+            std::mem::forget(y);
+            assert!(false, "C10 short and interrupted writes do not change the outcome");
+        }
+    }
+    kani::cover!(true, "compared");
+}
